@@ -546,7 +546,7 @@ fn main() {
 	let _ = log::set_logger(&EVAL_LOGGER);
 	set_logging(false);
 	LOGGER_STRIDE.store(a.num("logger-pass", 4) as usize, Ordering::SeqCst);
-	start_stall_monitor(std::time::Duration::from_secs(a.num("stall-secs", 300)), a.get("replay-dir").unwrap_or("work/replays").to_string());
+	start_stall_monitor(std::time::Duration::from_secs(a.num("stall-secs", 150)), a.get("replay-dir").unwrap_or("work/replays").to_string());
 	match a.cmd.as_str() {
 		"replay-beh" => cmd_replay_beh(&a),
 		"fields" => fields::cmd_fields(&a),
